@@ -528,7 +528,7 @@ class Evaluator:
         return self._sym(name)
 
     def _def_term(self, name, node, restrict):
-        key = ("def", name, node.id, restrict, self.alias_mode, self._keep_seq)
+        key = ("def", name, node.id, restrict, self.alias_mode)
         if key in self._cache:
             return self._cache[key]
         if key in self._stack:
@@ -541,6 +541,8 @@ class Evaluator:
             return self.ctx.mk(("carried", node.id), ())
         self._stack.append(key)
         self._foreign.append(set())
+        saved_keep = self._keep_seq
+        self._keep_seq = False      # index mode applies to the literal subscript expression only
         try:
             res = None
             alld = [d for d in self.cfg.defs_of_node(node) if d[0] == name]
@@ -607,6 +609,7 @@ class Evaluator:
             if res is None:
                 raise AnalysisError(f"{self.func.qual}: cannot resolve definition of {name}")
         finally:
+            self._keep_seq = saved_keep
             self._stack.pop()
             foreign = self._foreign.pop()
         if not foreign:
